@@ -80,6 +80,10 @@ func (e *Env) SetValue(symbol string, value reflect.Value) error {
 // Get returns interface value from the scope where symbol is first found.
 func (e *Env) Get(symbol string) (interface{}, error) {
 	rv, err := e.GetValue(symbol)
+	if !rv.IsValid() || !rv.CanInterface() {
+		// the zero reflect.Value (DefineValue / SetValue accept it) holds nothing
+		return nil, err
+	}
 	return rv.Interface(), err
 }
 
